@@ -505,6 +505,9 @@ class World:
                 self.sd[tag] = {}
         for p in self.provs:
             p.disconnect()
+            # a new connection reads the change feed from "now": what happened during the outage is only reachable through the
+            # stored cursor (which the engine hands back to the provider) or through a walk
+            p._cursor = p._latest_cursor
         self.boot()
         return True
 
